@@ -243,6 +243,16 @@ func (t *tr) extStructOf(ty types.Type) (*extPkg, string) {
 	return ep, n.Obj().Name()
 }
 
+// *regexp.Regexp: translated to an optional matcher (None = nil pointer); the regular-expression engine itself is
+// not translated, a compiled expression is an arbitrary predicate on byte strings
+func isRegexp(ty types.Type) bool {
+	if p, ok := ty.(*types.Pointer); ok {
+		ty = p.Elem()
+	}
+	n, ok := ty.(*types.Named)
+	return ok && n.Obj().Pkg() != nil && n.Obj().Pkg().Path() == "regexp" && n.Obj().Name() == "Regexp"
+}
+
 func isBytesBuffer(ty types.Type) bool {
 	n, ok := ty.(*types.Named)
 	return ok && n.Obj().Pkg() != nil && n.Obj().Pkg().Path() == "bytes" && n.Obj().Name() == "Buffer"
@@ -254,6 +264,9 @@ func (t *tr) gtype(ty types.Type) string {
 	}
 	if isBytesBuffer(ty) {
 		return "bytes"
+	}
+	if isRegexp(ty) {
+		return "(option (bytes -> bool))"
 	}
 	if ep, n := t.extStructOf(ty); ep != nil {
 		return ep.Module + ".go_" + n
@@ -297,6 +310,9 @@ func (t *tr) zero(ty types.Type) string {
 	}
 	if isBytesBuffer(ty) {
 		return "([] : bytes)"
+	}
+	if isRegexp(ty) {
+		return "(None : option (bytes -> bool))"
 	}
 	if ep, n := t.extStructOf(ty); ep != nil {
 		return ep.Structs[n].Zero
@@ -887,6 +903,9 @@ func (f *fctx) binary(x *ast.BinaryExpr) string {
 			if f.t.isErr(ty) {
 				return neg("(err_is_nil " + f.expr(a) + ")")
 			}
+			if isRegexp(ty) {
+				return neg("(rx_is_nil " + f.expr(a) + ")")
+			}
 			if _, ok := ty.Underlying().(*types.Slice); ok {
 				f.t.orcSite++
 				f.fn.needsOrc = true
@@ -1054,6 +1073,15 @@ func (f *fctx) call(x *ast.CallExpr, n int) []string {
 					}
 					return f.callFunc(fo, recv, x, n)
 				}
+				// (*regexp.Regexp).Match on an optional matcher
+				if sig := fo.Type().(*types.Signature); sig.Recv() != nil && fo.Pkg().Path() == "regexp" && isRegexp(sig.Recv().Type()) {
+					if fo.Name() != "Match" {
+						fail("regexp.Regexp.%s", fo.Name())
+					}
+					tn := f.fresh("t")
+					f.pre = append(f.pre, fmt.Sprintf("%s <- grx_match %s %s ;;\n", tn, f.expr(fun.X), f.expr(x.Args[0])))
+					return []string{tn}
+				}
 				// methods of a bytes.Buffer variable (translated to a byte string)
 				if sig := fo.Type().(*types.Signature); sig.Recv() != nil && fo.Pkg().Path() == "bytes" {
 					if p, ok := sig.Recv().Type().(*types.Pointer); ok && isBytesBuffer(p.Elem()) {
@@ -1085,6 +1113,8 @@ func (f *fctx) call(x *ast.CallExpr, n int) []string {
 					return []string{"(bcmp_z " + f.expr(x.Args[0]) + " " + f.expr(x.Args[1]) + ")"}
 				case "bytes.HasPrefix":
 					return []string{"(has_prefix " + f.expr(x.Args[0]) + " " + f.expr(x.Args[1]) + ")"}
+				case "bytes.TrimPrefix":
+					return []string{"(trim_prefix " + f.expr(x.Args[0]) + " " + f.expr(x.Args[1]) + ")"}
 				case "encoding/binary.PutUint16", "encoding/binary.PutUint32", "encoding/binary.PutUint64",
 					"encoding/binary.Uint16", "encoding/binary.Uint32", "encoding/binary.Uint64":
 					if bo, ok := fun.X.(*ast.SelectorExpr); !ok || bo.Sel.Name != "LittleEndian" {
